@@ -220,7 +220,7 @@ impl Scenario for Adv {
 
 pub fn scenarios(thorough: bool) -> Vec<(Adv, usize)> {
     if thorough {
-        vec![(Adv { pieces: 3, preowned: vec![] }, 14), (Adv { pieces: 3, preowned: vec![1] }, 12), (Adv { pieces: 4, preowned: vec![] }, 11)]
+        vec![(Adv { pieces: 3, preowned: vec![] }, 17), (Adv { pieces: 3, preowned: vec![1] }, 15), (Adv { pieces: 4, preowned: vec![] }, 14)]
     } else {
         vec![(Adv { pieces: 3, preowned: vec![] }, 9), (Adv { pieces: 2, preowned: vec![] }, 11)]
     }
